@@ -4,7 +4,7 @@
    run, and the real placements are validated in cases_*.v by the checker
    whose correctness is stated here. *)
 From Coq Require Import QArith List Bool Arith.
-Require Import LT.Layout LT.LayoutPath LT.LayoutPlace LT.LayoutMulti.
+Require Import LT.Layout LT.LayoutPath LT.LayoutPlace LT.LayoutMulti LT.LayoutPrune.
 Import ListNotations.
 Local Open Scope Q_scope.
 
@@ -72,6 +72,19 @@ Theorem C20_longest_path_check : forall (E : list (edge Q)) tgt rank F D,
   check (map cstr_of_edge E) (lp_pos E tgt F D) = true.
 Proof. exact longest_path_check. Qed.
 
+(* 4b. Graph.prune: the edge kept for a pair of gnodes is one of the parallel
+       edges; a fixed edge survives (the same reduction is applied to the forward
+       and to the reverse list, so it survives in both views); when all are
+       stretchy the kept one is a largest one and implies the dropped ones *)
+Theorem C20_prune_keeps_fixed : forall l e, In e l -> snd e = false -> exists b, best l = Some b /\ snd b = false.
+Proof. exact best_keeps_fixed. Qed.
+Theorem C20_prune_in : forall l b, best l = Some b -> In b l.
+Proof. exact best_in. Qed.
+Theorem C20_prune_sound_stretchy : forall pos a c l b,
+  (forall e, In e l -> snd e = true /\ 0 < fst e) -> best l = Some b ->
+  holds pos (mkC a c (fst b) RGe) -> forall e, In e l -> holds pos (mkC a c (fst e) RGe).
+Proof. exact prune_sound_stretchy. Qed.
+
 (* 5. the emission loop draws each non-ignored element exactly once *)
 Theorem C20_tikz_once : forall (elt : Type) (name : elt -> nat) (ignored : elt -> bool) elts e,
   NoDup (map name elts) -> In e elts ->
@@ -105,3 +118,6 @@ Print Assumptions C20_scale_all.
 Print Assumptions C20_longest_path_feasible.
 Print Assumptions C20_longest_path_check.
 Print Assumptions C20_tikz_once.
+Print Assumptions C20_prune_keeps_fixed.
+Print Assumptions C20_prune_in.
+Print Assumptions C20_prune_sound_stretchy.
